@@ -41,6 +41,7 @@ pub struct Script {
     pub cb_entry_removed_before: bool,
     pub registered: bool,
     pub unregister_on_drop: bool,
+    pub unit_read_pending_during_poll: bool,
 }
 pub static mut SCRIPT: Script = Script::new();
 impl Script {
@@ -48,7 +49,7 @@ impl Script {
         Script {
             steps: [Step::Ready; 3], polls: 0, drops: 0, ctx_null_during_poll: true, task_set_during_poll: true,
             task_set_during_drop: true, cb_calls: 0, cb_code: 0, cb_join_calls_before: 0, cb_entry_removed_before: true,
-            registered: false, unregister_on_drop: false,
+            registered: false, unregister_on_drop: false, unit_read_pending_during_poll: false,
         }
     }
 }
@@ -101,6 +102,9 @@ impl Future for Body {
         }
         if h().cur_task.is_null() {
             s.task_set_during_poll = false;
+        }
+        if h().unit_read_pending {
+            s.unit_read_pending_during_poll = true;
         }
         let step = if s.polls < 3 { s.steps[s.polls] } else { Step::Ready };
         s.polls += 1;
